@@ -223,6 +223,13 @@ def quick_plans(rng, thorough):
         add("V2R3", keylen=16, sig="typed", layout="classic")
         add("V4R4", stm="2", str="2", sig="untyped", layout="classic")
         add("V1R2", sig="untyped", layout="classic")
+        # Algorithm 1's object-number and generation bytes: leaves in objects with sparse high numbers (255 .. 16777215) and with
+        # non-zero generations (1, 255, 256, 258), RC4 and AESV2, classic table with subsections and xref stream with /Index
+        add("V1R2", spread="both", layout="classic")
+        add("V2R3", keylen=16, spread="both", layout="objstm")
+        add("V4R4", stm="1", str="1", spread="both", layout="objstm", n_overrides=0)
+        add("V4R4", stm="2", str="2", spread="both", layout="classic", n_overrides=0)
+        add("V5R5", stm="3", str="3", spread="nums", layout="classic", n_overrides=0)
     # R6: fixed secrets (memoised extracted results in the quick tier)
     for k, lay in enumerate(("classic", "objstm") if not thorough else ("classic", "objstm", "classic")):
         over = dict(R6_FIXED)
@@ -233,6 +240,7 @@ def quick_plans(rng, thorough):
             over.update(user="", owner=b"another owner".hex(), rnd=bytes(range(100, 168)).hex(), stm="3", str="0")
         add("V5R6", **over)
     if thorough:
+        add("V4R4", stm="2", str="1", spread="nums", spread_big=True, layout="classic", n_overrides=0)       # object numbers 16777215 and 8388607
         for _ in range(30):
             add(rng.choice(["V1R2", "V2R3", "V4R4", "V4R4", "V5R5", "V5R5"]), override_forms=rng.choice(["explicit", "explicit", "mixed"]))
     return plans
@@ -284,8 +292,8 @@ def parse_drv(o):
 
 def leaf_key(l):
     if l["path"] == ("stream",):
-        return "%d.0:t:-" % l["num"]
-    pre = "trailer" if l["num"] == 0 else "%d.0" % l["num"]
+        return "%d.%d:t:-" % (l["num"], l.get("gen", 0))
+    pre = "trailer" if l["num"] == 0 else "%d.%d" % (l["num"], l.get("gen", 0))
     return "%s:s:%s" % (pre, ".".join(l["path"]) if l["path"] else "-")
 
 
@@ -419,7 +427,7 @@ def strip_crypt(objs):
 
 
 def plain_objs(ef):
-    return {(n, 0): o for n, o in ef.plain.objects.items()}
+    return {(n, ef.gens.get(n, 0)): o for n, o in ef.plain.objects.items()}
 
 
 def compare_doc(ef, objs, trailer):
@@ -463,7 +471,9 @@ def build_files(chk, plans, run, work):
             f.write(ef.bytes)
         ppath = os.path.join(work, "plain%03d.pdf" % ef.plan["idx"])
         d = ef.plain
-        data, _ = pdfgen.write_classic(d, with_id=(b"0123456789abcdef", b"fedcba9876543210"))
+        ptr = dict(d.trailer)
+        ptr[b"ID"] = [Str(b"0123456789abcdef"), Str(b"fedcba9876543210")]
+        data = gen.write_classic_sparse(d, ptr, ef.gens, version=b"1.4")
         with open(ppath, "wb") as f:
             f.write(data)
         ef.plain_path = ppath
@@ -539,7 +549,7 @@ def first_sig(ef, why=""):
     f11 = SIG_PREFIX + "key-cache-ignores-aes"
     if f10 in s and "/Contents" in why:
         return f10
-    m = re.match(r"(\d+) 0 R", why)
+    m = re.match(r"(\d+) \d+ R", why)
     if m:
         # the difference names an object of the plaintext document: the class of that object's leaves decides
         ls = [l for l in ef.leaves if l["num"] == int(m.group(1))]
@@ -671,7 +681,7 @@ def judge_files(chk, efs, run, drv, work, rng, perms_spec=None, cli=True):
         if st is None:
             continue
         for l in ef.leaves:
-            dl.append("c6dec " + " ".join(st[0] + [l["kind"], str(l["num"]), "0", hexs(l["cipher"])]))
+            dl.append("c6dec " + " ".join(st[0] + [l["kind"], str(l["num"]), str(l.get("gen", 0)), hexs(l["cipher"])]))
             dmeta.append((ef, l))
     dout = run(dl, shards=4)
     mleaf = {}
@@ -688,7 +698,8 @@ def judge_files(chk, efs, run, drv, work, rng, perms_spec=None, cli=True):
             mf = mo.split()
             nleaf += 1
             cls = leaf_class(ef, l)
-            classes.add((ef.plan["scheme"], cls, l.get("method")))
+            classes.add((ef.plan["scheme"], cls, l.get("method"), "n>=65536" if l["num"] >= 65536 else ("n>=256" if l["num"] >= 256 else ""),
+                         "g>=256" if l.get("gen", 0) >= 256 else ("g>0" if l.get("gen", 0) else "")))
             want = hexs(l["plain"])
             if got != want:
                 chk.violation({"kind": "property-fails-on-implementation", "part": "files-leaves", "what": "a %s is not decrypted to the plaintext" % cls,
@@ -719,7 +730,8 @@ def lazy_part(chk, efs, cases, impl, state_of, run, drv):
         if im["ok"] and id(ef) not in pick and id(ef) in state_of:
             pick[id(ef)] = (ef, role, pw)
     sel = list(pick.values())
-    dl = ["c6lazy %s %s %d" % (hexs(ef.path.encode()), ("H:" + pw.hex()) if role == "hexkey" else ("P:" + hexs(pw)), max(ef.E.objects)) for ef, role, pw in sel]
+    dl = ["c6lazy %s %s %s" % (hexs(ef.path.encode()), ("H:" + pw.hex()) if role == "hexkey" else ("P:" + hexs(pw)),
+                               ",".join("%d.%d" % (n, ef.gens.get(n, 0)) for n in sorted(ef.E.objects))) for ef, role, pw in sel]
     outs = common.run_lines(drv, dl, shards=4)
     mlines, mmeta = [], []
     for ef, role, pw in sel:
@@ -731,7 +743,7 @@ def lazy_part(chk, efs, cases, impl, state_of, run, drv):
             if num == 0 or not any(l["path"] == ("stream",) for l in ls):
                 continue
             seq = [l for l in ls if l["path"] != ("stream",)] + [l for l in ls if l["path"] == ("stream",)]
-            mlines.append("c6decseq " + " ".join(st + sum(([l["kind"], str(l["num"]), "0", hexs(l["cipher"])] for l in seq), [])))
+            mlines.append("c6decseq " + " ".join(st + sum(([l["kind"], str(l["num"]), str(l.get("gen", 0)), hexs(l["cipher"])] for l in seq), [])))
             mmeta.append((ef, seq))
     mout = run(mlines, shards=4)
     model = {}
@@ -1007,14 +1019,14 @@ PDFDOC = {0x18: 0x02D8, 0x19: 0x02C7, 0x1A: 0x02C6, 0x1B: 0x02D9, 0x1C: 0x02DD, 
           0x80: 0x2022, 0x81: 0x2020, 0x82: 0x2021, 0x83: 0x2026, 0x84: 0x2014, 0x85: 0x2013, 0x86: 0x0192, 0x87: 0x2044, 0x88: 0x2039, 0x89: 0x203A,
           0x8A: 0x2212, 0x8B: 0x2030, 0x8C: 0x201E, 0x8D: 0x201C, 0x8E: 0x201D, 0x8F: 0x2018, 0x90: 0x2019, 0x91: 0x201A, 0x92: 0x2122, 0x93: 0xFB01,
           0x94: 0xFB02, 0x95: 0x0141, 0x96: 0x0152, 0x97: 0x0160, 0x98: 0x0178, 0x99: 0x017D, 0x9A: 0x0131, 0x9B: 0x0142, 0x9C: 0x0153, 0x9D: 0x0161,
-          0x9E: 0x017E, 0xA0: 0x20AC}
+          0x9E: 0x017E, 0x9F: 0xFFFD, 0xA0: 0x20AC}      # 0x9F is undefined: qpdf exports it as U+FFFD and maps U+FFFD back to 0x9F
 
 
 def pdfdoc_text(b):
     """PDFDocEncoding (ISO 32000 Annex D) -> text; None when a byte has no character"""
     out = []
     for c in b:
-        if c in (0x9F, 0xAD) or (c < 0x18 and c not in (8, 9, 10, 12, 13)) or c == 0x7F:
+        if c == 0xAD or (c < 0x18 and c not in (8, 9, 10, 12, 13)) or c == 0x7F:
             return None
         out.append(chr(PDFDOC.get(c, c)))
     return "".join(out)
